@@ -73,6 +73,7 @@ type Exec struct {
 	tokens     map[string]uint64       // client/key -> last token held
 	stale      map[string][]uint64
 	trigActive int
+	bursts     int
 	root       string // root-cause class shared by every consequence seen in this run
 	cutOff     string // transient root cause noted during the run (see noteCutOff)
 	c08Pending []c08Refusal
@@ -314,6 +315,18 @@ func (ex *Exec) main() {
 			return
 		}
 		seenRPC[call.Method]++
+		if (call.Method == "FinishLeave" || call.Method == "FinishJoin") && ex.bursts < p.Bursts {
+			req := &protocol.MembershipConclusionRequest{}
+			if req.UnmarshalVT(call.ReqBody) == nil && req.GetRelease() {
+				if !req.GetStabilize() {
+					simrt.Probe("finish-release-without-stabilize/" + call.Method)
+				}
+				bi := ex.bursts
+				ex.bursts++
+				ex.trigActive++
+				simrt.GoGroup(fmt.Sprintf("h:burst%d", bi), "", func() { defer func() { ex.trigActive-- }(); ex.burst(bi, call) })
+			}
+		}
 		for ti := range p.Triggers {
 			tr := p.Triggers[ti]
 			if tr.OnMethod == call.Method && tr.Nth == seenRPC[call.Method] {
@@ -696,6 +709,33 @@ func (ex *Exec) neighbour(h *NodeH, dir int) *NodeH {
 		}
 	}
 	return nil
+}
+
+// burst is a short series of operations on the shared keys right after a membership change was concluded
+// (or abandoned), entering at the two nodes of the change: what one of them acknowledges the other must see.
+func (ex *Exec) burst(bi int, call simnet.Call) {
+	simrt.Probe("kv-burst")
+	nodes := []*NodeH{ex.c.ByName(call.To), ex.c.ByName(call.From)}
+	client := 40 + bi
+	oi := 0
+	nk := len(ex.p.Keys)
+	if nk > 3 {
+		nk = 3
+	}
+	for k := 0; k < nk; k++ {
+		for _, step := range []struct {
+			kind string
+			at   int
+		}{{"put", 0}, {"get", 1}, {"put", 1}, {"get", 0}} {
+			h := nodes[step.at]
+			if h == nil || !h.Joined || h.Crashed || h.Left {
+				continue
+			}
+			rec := ex.doOp(h, client, COp{Kind: step.kind, Key: k}, oi, false)
+			oi++
+			simrt.Event("burst%d %s %s %s via %s -> %s %s %s", bi, rec.Kind, rec.Key, rec.Arg, h.Name, rec.Class, rec.Out, rec.Err)
+		}
+	}
 }
 
 func (ex *Exec) fire(tr Trigger, call simnet.Call) {
